@@ -62,7 +62,11 @@ func (sos *ShareOrSigns) Validate(mpks *Mpks, publicKeys map[string]string, sche
 			if err := sij.SetHexString(share.Share); err != nil {
 				return nil, false
 			}
-			pks, err := bls.ConvertStringToMpk(mpks.Mpks[sos.ID].Mpk)
+			mpk, ok := mpks.Mpks[sos.ID]
+			if !ok || mpk == nil {
+				return nil, false
+			}
+			pks, err := bls.ConvertStringToMpk(mpk.Mpk)
 			if err != nil {
 				logging.Logger.Error("failed to convert mpks", zap.Error(err))
 				return nil, false
